@@ -665,8 +665,12 @@ class Arbiter(object):
             rlist, wlist, xlist = select.select(sockets, [], [], 0)
             if rlist:
                 self.socket_event = True
-                self._start_watchers()
-                self.socket_event = False
+                try:
+                    # inside this periodic check, not beside whatever
+                    # is accepted once it has ended
+                    yield self._start_watchers()
+                finally:
+                    self.socket_event = False
 
     @synchronized("arbiter_reload")
     @gen.coroutine
